@@ -205,7 +205,7 @@ def FORM_TWINS():
 
 
 WORKLOADS = [
-    Workload("gain", w_gain, 2500, 60000),
+    Workload("gain", w_gain, 2500, 60000, budget=400),
     Workload("statistical", w_statistical, 24, 160, budget=300),
     Workload("two_grids", w_two_grids, 12, 200, budget=300),
 ]
